@@ -225,6 +225,9 @@ func (x *Exec) solveAll(cfg solveCfg) {
 		if o.Cover || o.MaxSec > 0 || o.Result == "unsat" || o.Result == "sat" {
 			continue
 		}
+		if x.knownObl[o.Name] {
+			continue // listed known finding: expected not to be provable, no second attempt
+		}
 		retry = append(retry, j)
 	}
 	if len(retry) > 0 {
